@@ -307,6 +307,7 @@ impl Property for C06 {
         vec![
             Segment::random("histories", tier.pick(150_000, 2_000_000), &[0], 8, 600),
             Segment::random("histories-long-vectors", tier.pick(30_000, 300_000), &[1], 8, 600),
+            Segment::enumerated("huge(>2^32 bits)", tier.pick(2, 6), &[9]),
         ]
     }
     fn rule(&self) -> &'static str {
@@ -314,6 +315,11 @@ impl Property for C06 {
     }
     fn run(&self, data: &[u8], cx: &mut Ctx) -> R {
         let (mode, rest) = data.split_first().unwrap_or((&0, &[]));
+        if *mode == 9 {
+            let mut b = [0u8; 8];
+            b[..rest.len().min(8)].copy_from_slice(&rest[..rest.len().min(8)]);
+            return huge_case(cx, u64::from_le_bytes(b));
+        }
         let cap = if *mode == 1 { 4200 } else { 200 };
         let mut u = Unstructured::new(rest);
         let (init, ops) = decode(&mut u, cap);
@@ -645,4 +651,52 @@ fn atomic_count<B: AsRef<[AtomicUsize]>>(cx: &mut Ctx, v: &AtomicBitVec<B>, mode
     cx.check_eq(c0, model.len() - ones, "atomic.count_zeros", || "atomic count_zeros".into())?;
     let c2 = cx.must("atomic.par_count_ones", || v.par_count_ones())?;
     cx.check_eq(c2, ones, "atomic.par_count_ones", || "atomic par_count_ones".into())
+}
+
+/// Vectors with more than 2^32 bits (and more than 2^32 ones): counts and
+/// accesses beyond the 32-bit range, on the plain and on the atomic form.
+fn huge_case(cx: &mut Ctx, j: u64) -> R {
+    let len = (1usize << 32) + [100usize, 64, 4097, 1, 65, 1000][j as usize % 6];
+    let value = j % 2 == 0;
+    cx.hash(&("huge", j));
+    cx.describe(|| format!("huge case {j}: with_value({len}, {value}), counts and accesses above 2^32 on BitVec and AtomicBitVec"));
+    cx.label("len>2^32");
+    cx.nontrivial();
+    let mut b = cx.must("with_value", || BitVec::with_value(len, value))?;
+    let ones = if value { len } else { 0 };
+    let check_counts = |cx: &mut Ctx, b: &BitVec, ones: usize, what: &str| -> R {
+        let c = cx.must("count_ones", || b.count_ones())?;
+        cx.check_eq(c, ones, "count_ones", || format!("BitVec::count_ones {what} (len {len})"))?;
+        let c = cx.must("count_zeros", || b.count_zeros())?;
+        cx.check_eq(c, len - ones, "count_zeros", || format!("BitVec::count_zeros {what}"))
+    };
+    check_counts(cx, &b, ones, "after with_value")?;
+    for i in [len - 1, 1 << 32, (1 << 32) - 1, len - 64] {
+        let g = cx.must("get", || b.get(i))?;
+        cx.check_eq(g, value, "get", || format!("get({i})"))?;
+    }
+    cx.must("set", || b.set(len - 1, !value))?;
+    cx.must("set", || b.set(1 << 32, !value))?;
+    let ones2 = if value { len - 2 } else { 2 };
+    check_counts(cx, &b, ones2, "after two sets above 2^32")?;
+    cx.must_panic("get(len)", || b.get(len))?;
+    let mut a: AtomicBitVec = cx.must("Vec->Atomic", || b.into())?;
+    let c = cx.must("atomic.count_ones", || a.count_ones())?;
+    cx.check_eq(c, ones2, "atomic.count_ones", || format!("AtomicBitVec::count_ones with {ones2} ones (len {len})"))?;
+    let c = cx.must("atomic.count_zeros", || a.count_zeros())?;
+    cx.check_eq(c, len - ones2, "atomic.count_zeros", || format!("AtomicBitVec::count_zeros (len {len})"))?;
+    let c = cx.must("atomic.par_count_ones", || a.par_count_ones())?;
+    cx.check_eq(c, ones2, "atomic.par_count_ones", || format!("AtomicBitVec::par_count_ones (len {len})"))?;
+    cx.must("atomic.flip", || a.flip(Ordering::Relaxed))?;
+    let c = cx.must("atomic.count_ones", || a.count_ones())?;
+    cx.check_eq(c, len - ones2, "atomic.count_ones", || format!("AtomicBitVec::count_ones after flip (len {len})"))?;
+    let g = cx.must("atomic.get", || a.get(1 << 32, Ordering::Relaxed))?;
+    cx.check_eq(g, value, "atomic.get", || "AtomicBitVec::get(2^32) after flip".into())?;
+    cx.must("atomic.fill", || a.fill(true, Ordering::Relaxed))?;
+    let c = cx.must("atomic.count_ones", || a.count_ones())?;
+    cx.check_eq(c, len, "atomic.count_ones", || format!("AtomicBitVec::count_ones after fill(true) (len {len})"))?;
+    let b: BitVec = cx.must("Atomic->Vec", || a.into())?;
+    let c = cx.must("par_count_ones", || b.par_count_ones())?;
+    cx.check_eq(c, len, "par_count_ones", || format!("BitVec::par_count_ones on {len} ones"))?;
+    Ok(())
 }
